@@ -493,3 +493,5 @@ def check(run, prog):
     rule_lookback(run, prog)             # R-19.5
     from .c19_toplevel_comment import rule_toplevel_comment
     rule_toplevel_comment(run, prog)     # R-19.6
+    from .c14_history import rule_history_append_only
+    rule_history_append_only(run, prog, "R-19.7")
